@@ -46,11 +46,28 @@ def statements():
 
     def s_hash_hash(p):
         p.h2 = p.h1 + p.d
+
+    def s_dict_update(p):
+        p.table.key.k1 = 5
+        p.table.key.k2 = 7
+        p.table.value.v1 = p.d
+        p.table.value.v2 = 9
+        p.table.update()
+
+    def s_dict_lookup(p):
+        p.table.key.k1 = 5
+        p.table.key.k2 = 7
+        with p.table.lookup() as (value, Else):
+            p.c = value.v2
+        with Else:
+            p.c = 0
     return {"d = h1 (hash read)": ("d", s_hash_read), "h1 = c + 1 (hash write)": ("h1", s_hash_write),
             "m2 = h2": ("m2", s_hash_to_map), "c = a*b + d*3": ("c", s_products),
             "d = ktime": ("d", s_ktime), "c = prandom & 0xffff": ("c", s_prandom), "f = 1 (bit)": ("f", s_bit),
             "e = e * 2.5": ("e", s_fixed), "m1 = b + a": ("m1", s_map_from_local),
-            "h2 = h1 + d": ("h2", s_hash_hash)}
+            "h2 = h1 + d": ("h2", s_hash_hash),
+            "table[5,7] = (d, 9) (Dict update)": (None, s_dict_update),
+            "c = table[5,7].v2 (Dict lookup)": ("c", s_dict_lookup)}
 
 
 def build(stmt):
@@ -58,11 +75,21 @@ def build(stmt):
     import ebpfcat.hashmap as hm
     from ebpfcat.arraymap import ArrayMap
     from ebpfcat.ebpf import EBPF, LocalVar
-    from ebpfcat.hashmap import HashMap
+    from ebpfcat.ebpf import Member, Structure
+    from ebpfcat.hashmap import Dict, HashMap
+
+    class Key(Structure):
+        k1 = Member("I")
+        k2 = Member("H")
+
+    class Value(Structure):
+        v1 = Member("q")
+        v2 = Member("I")
     saved = am.create_map, am.mmap, hm.create_map
     am.create_map = lambda *a, **k: 77
     am.mmap = lambda fd, size: bytearray(size)
-    hm.create_map = lambda *a, **k: 78
+    fds = iter([78, 79, 80])
+    hm.create_map = lambda *a, **k: next(fds)
     try:
         ns = {"license": "GPL"}
         for n, f in LOCALS.items():
@@ -73,6 +100,7 @@ def build(stmt):
         ns["hmap"] = HashMap()
         for n, f in HASHVARS.items():
             ns[n] = ns["hmap"].globalVar(f)
+        ns["table"] = Dict(Key, Value)
         dest, fn = statements()[stmt]
 
         def program(self):
@@ -87,7 +115,8 @@ def build(stmt):
                     locals={n: (f, getattr(P, n).relative_addr) for n, f in LOCALS.items()},
                     mapvars={n: (f, p.__dict__[n]) for n, f in MAPVARS.items()},
                     hashvars={n: (f, getattr(P, n).count) for n, f in HASHVARS.items()},
-                    map_size=ns["amap"].size, frame_bottom=P.stack)
+                    map_size=ns["amap"].size, frame_bottom=P.stack,
+                    dict_sizes=(Key.stack, Value.stack))
         return info
     finally:
         am.create_map, am.mmap, hm.create_map = saved
